@@ -19,6 +19,7 @@ pub mod c18;
 pub mod c19;
 pub mod c20;
 pub mod e2e;
+pub mod front;
 
 use crate::engine::Property;
 
